@@ -52,6 +52,8 @@ type Config struct {
 	// OpenRspPriv, if set, is the maximum privilege level placed in the Open
 	// Session Response instead of echoing the requested one.
 	OpenRspPriv *byte
+	// OpenRspPrivRaw: the byte is sent as it is (reserved upper bits included)
+	OpenRspPrivRaw bool
 	// FollowUnknownAlgs: the BMC completes RAKP for integrity / confidentiality
 	// algorithm numbers the reference does not implement (it announced them, so
 	// it knows them); packets of such a session are opaque.
@@ -275,6 +277,9 @@ func (b *BMC) openSession(rx *Rx) {
 		// the maximum privilege level the BMC allows for the proposed algorithms
 		// may differ from the one requested (13.18)
 		rsp[2] = *b.Cfg.OpenRspPriv & 0x0f
+		if b.Cfg.OpenRspPrivRaw {
+			rsp[2] = *b.Cfg.OpenRspPriv
+		}
 	}
 	rsp = append(rsp, le32(sidm)...)
 	rsp = append(rsp, le32(s.HS.SIDC)...)
